@@ -1,5 +1,6 @@
 SPECIFICATION Spec
 CONSTANTS
+  DTypes = {"none", "message", "call", "deploy", "deposit_add", "deposit_withdraw", "patch"}
   TxKinds = {"v3", "v2"}
   Keys = {"k1", "k2"}
   Msgs = {"this", "other"}
